@@ -17,3 +17,14 @@ package ops
 //@   assigns nothing
 //@   modifies signerCalls, sigKey, sigDigest, lastSig
 //@   ensures err == nil ==> result != nil
+
+// Certificate profile (C12). x509.SHA256WithRSAPSS = 13, x509.RSA = 1, KeyUsageDigitalSignature = 1,
+// KeyUsageCertSign|KeyUsageCRLSign = 96; lifetimes are sign/types.RootValidDays / SignValidDays days.
+//@ func GoogleCertificateTemplate
+//@   requires tmpl != nil && tmpl.Serial != nil
+//@   assigns nothing
+//@   ensures[C12] err == nil && result != nil && fresh(result)
+//@   ensures[C12] result.SerialNumber == tmpl.Serial && result.Subject.SerialNumber == bigStr(tmpl.Serial) && result.Subject.CommonName == tmpl.SubjectCommonName
+//@   ensures[C12] result.SignatureAlgorithm == 13 && result.PublicKeyAlgorithm == 1 && result.BasicConstraintsValid && result.NotBefore == tmpl.NotBefore && result.Version == 3
+//@   ensures[C12] tmpl.Issuer == nil ==> result.IsCA && result.KeyUsage == 96 && result.MaxPathLenZero && result.NotAfter == timeAdd(tmpl.NotBefore, 9131 * 24 * 3600000000000) && result.Issuer == result.Subject
+//@   ensures[C12] tmpl.Issuer != nil ==> !result.IsCA && result.KeyUsage == 1 && result.NotAfter == timeAdd(tmpl.NotBefore, 1826 * 24 * 3600000000000) && result.Issuer == tmpl.Issuer.Subject
